@@ -143,7 +143,7 @@ impl Default for GenParams {
 }
 
 pub fn gen_name(rng: &mut Rng, weird: bool) -> Vec<u8> {
-    const PLAIN: [&str; 12] = ["a", "b", "c", "d1", "e.txt", "f.bin", "g", "data", "x.log", "lib", "src", "z"];
+    const PLAIN: [&str; 13] = ["a", "b", "c", "d1", "e.txt", "f.bin", "g", "data", "x.log", "lib", "src", "z", "in.stream"];
     if !weird || rng.chance(3, 4) {
         let mut n = PLAIN[rng.usize(PLAIN.len())].as_bytes().to_vec();
         if rng.chance(1, 2) {
@@ -466,6 +466,10 @@ impl SimSource {
     }
 }
 
+pub fn is_stream(name: &[u8]) -> bool {
+    name.ends_with(b".stream")
+}
+
 pub fn node_of(name: &[u8], e: &Entry) -> Node {
     let node_type = match &e.kind {
         Kind::File(_) => NodeType::File,
@@ -474,7 +478,10 @@ pub fn node_of(name: &[u8], e: &Entry) -> Node {
         Kind::Fifo => NodeType::Fifo,
     };
     let ts = |t: (i64, i32)| jiff::Timestamp::new(t.0, t.1).ok();
+    // files named `*.stream` stand for sources that cannot tell their size in advance (stdin, command
+    // output): the node carries size 0 while the content is whatever the reader delivers
     let size = match &e.kind {
+        Kind::File(_) if is_stream(name) => 0,
         Kind::File(b) => b.len() as u64,
         _ => 0,
     };
